@@ -1,65 +1,36 @@
-(* Proofs about Model/Arith.v (C06). *)
+(* Proofs about Model/Arith.v (C06, repaired code). *)
 From PNC Require Import Base.Util Model.Arith.
 Require Import QArith.
 Local Close Scope Q_scope.
 Local Open Scope nat_scope.
 
 (* ---- binary operators ------------------------------------------------------------ *)
-Lemma dom_cell_correct is_ma cls c : dom_cell is_ma cls c = true -> impl_cell is_ma cls c = spec_cell is_ma cls c.
+Lemma cell_correct is_ma cls c : wf_cell is_ma c = true -> impl_cell is_ma cls c = spec_cell is_ma cls c.
 Proof.
-  unfold dom_cell, impl_cell, spec_cell. intros H. apply andb_true_iff in H as [H1 H2].
-  apply negb_true_iff in H1, H2. rewrite H1, H2.
-  destruct is_ma; simpl in *; auto.
-  unfold leak in H2. rewrite H1 in H2. simpl in H2.
-  destruct cls as [|[|?]]; simpl; auto.
-  apply orb_false_iff in H2 as [-> _]. reflexivity.
+  unfold wf_cell, impl_cell, spec_cell, ma_masks, to_cell. intros H.
+  destruct is_ma; simpl in *.
+  - destruct (m1 c), (m2 c); simpl; auto.
+    destruct cls as [|[|?]]; simpl; auto.
+    + destruct (b0 c); simpl; auto. destruct (nonfin (r c)); auto.
+    + destruct (nonfin (r c)); auto.
+  - apply negb_true_iff in H. rewrite H. reflexivity.
 Qed.
 
-Lemma binop_var_dom cls coords v :
-  dom_var cls coords v = true ->
+Lemma binop_var_correct cls coords v :
+  wf_var v = true ->
   binop_var (fun ma => impl_cell ma cls) coords v = binop_var (fun ma => spec_cell ma cls) coords v.
 Proof.
-  unfold dom_var, binop_var. destruct (is_coord coords v); auto. simpl.
+  unfold wf_var, binop_var. destruct (is_coord coords v); auto.
   destruct (bpair v) as [cs|]; auto. intros H. apply map_ext_in. intros c Hc.
-  apply dom_cell_correct. rewrite forallb_forall in H. auto.
+  apply cell_correct. rewrite forallb_forall in H. auto.
 Qed.
 
-Theorem binop_dom_correct cls coords vs :
-  forallb (dom_var cls coords) vs = true -> impl_binop cls coords vs = spec_binop cls coords vs.
+(* FULL: for every operator, shape, variable list, masked or plain operands *)
+Theorem binop_correct cls coords vs :
+  forallb wf_var vs = true -> impl_binop cls coords vs = spec_binop cls coords vs.
 Proof.
   intros H. unfold impl_binop, spec_binop. apply map_ext_in. intros v Hv.
-  apply binop_var_dom. rewrite forallb_forall in H. auto.
-Qed.
-
-(* plain (not masked-typed) operands without masked cells are always inside the domain *)
-Lemma dom_cell_plain cls c : m1 c = false -> m2 c = false -> dom_cell false cls c = true.
-Proof. unfold dom_cell. intros -> ->. reflexivity. Qed.
-
-Theorem binop_plain_correct cls coords vs :
-  (forall v cs, In v vs -> bpair v = Some cs ->
-     bma v = false /\ forall c, In c cs -> m1 c = false /\ m2 c = false) ->
-  impl_binop cls coords vs = spec_binop cls coords vs.
-Proof.
-  intros H. apply binop_dom_correct. apply forallb_forall. intros v Hv.
-  unfold dom_var. destruct (is_coord coords v); auto. simpl.
-  destruct (bpair v) as [cs|] eqn:E; auto.
-  destruct (H v cs Hv E) as [Hm Hc]. rewrite Hm. apply forallb_forall. intros c Hin.
-  destruct (Hc c Hin). apply dom_cell_plain; auto.
-Qed.
-
-(* masked-typed operands are fine as long as no cell is masked and no domained operator hits a
-   zero divisor / non-finite result *)
-Theorem binop_ma_correct cls coords vs :
-  (forall v cs, In v vs -> bpair v = Some cs -> forall c, In c cs ->
-     m1 c = false /\ m2 c = false /\ (cls = 0 \/ (b0 c = false /\ nonfin (r c) = false))) ->
-  impl_binop cls coords vs = spec_binop cls coords vs.
-Proof.
-  intros H. apply binop_dom_correct. apply forallb_forall. intros v Hv.
-  unfold dom_var. destruct (is_coord coords v); auto. simpl.
-  destruct (bpair v) as [cs|] eqn:E; auto. apply forallb_forall. intros c Hin.
-  destruct (H v cs Hv E c Hin) as [A [B D]]. unfold dom_cell, leak. rewrite A, B. simpl.
-  destruct D as [-> | [D1 D2]]; [rewrite andb_false_r; auto|].
-  rewrite D1, D2. destruct cls as [|[|?]]; simpl; rewrite andb_false_r; auto.
+  apply binop_var_correct. rewrite forallb_forall in H. auto.
 Qed.
 
 Theorem coords_passthrough cls coords vs i v :
@@ -69,16 +40,24 @@ Proof.
   intros H Hc. unfold impl_binop. rewrite (map_nth_error _ _ _ H). unfold binop_var. rewrite Hc. reflexivity.
 Qed.
 
-Theorem binop_length cls coords vs : length (impl_binop cls coords vs) = length vs.
-Proof. apply map_length. Qed.
+Theorem missing_right_copied cls coords vs i v :
+  nth_error vs i = Some v -> bpair v = None ->
+  nth_error (impl_binop cls coords vs) i = Some (bleft v).
+Proof.
+  intros H Hc. unfold impl_binop. rewrite (map_nth_error _ _ _ H). unfold binop_var. rewrite Hc.
+  destruct (is_coord coords v); reflexivity.
+Qed.
 
 (* whatever the operands, an exposed value is never non-finite *)
 Theorem impl_never_nonfinite is_ma cls c x : impl_cell is_ma cls c = Some x -> nonfin x = false.
 Proof.
-  unfold impl_cell, to_cell. destruct (is_ma && leak cls c).
-  - destruct (nonfin (z c)) eqn:E; intros H; inversion H; subst; auto.
-  - destruct (nonfin (r c)) eqn:E; intros H; inversion H; subst; auto.
+  unfold impl_cell, to_cell. destruct (is_ma && ma_masks cls c); try discriminate.
+  destruct (nonfin (r c)) eqn:E; intros H; inversion H; subst; auto.
 Qed.
+
+(* a masked operand cell stays masked (masked-typed variables) *)
+Theorem masked_operand_stays_masked cls c : m1 c || m2 c = true -> impl_cell true cls c = None.
+Proof. unfold impl_cell, ma_masks. intros ->. reflexivity. Qed.
 
 (* what the property says about one cell *)
 Theorem spec_cell_exact is_ma cls c x :
@@ -93,11 +72,9 @@ Proof.
 Qed.
 
 (* ---- mask() ---------------------------------------------------------------------- *)
-Lemma mcell_dom_correct p f wb c : dom_values p f = true -> impl_mcell p f wb c = spec_mcell p f wb c.
+Lemma mcell_correct p f wb c : impl_mcell p f wb c = spec_mcell p f wb c.
 Proof.
-  unfold dom_values, impl_mcell, spec_mcell, pred_hit, finish. destruct (p_values p) as [v|]; intros H.
-  - rewrite H. simpl. f_equal. repeat rewrite <- orb_assoc. reflexivity.
-  - simpl. f_equal. repeat rewrite <- orb_assoc. reflexivity.
+  unfold impl_mcell, spec_mcell, pred_hit. f_equal. repeat rewrite <- orb_assoc. reflexivity.
 Qed.
 
 Lemma zip_mask_ext g h bits cs : (forall wb c, g wb c = h wb c) -> zip_mask g bits cs = zip_mask h bits cs.
@@ -115,24 +92,17 @@ Qed.
 
 (* the chain masks exactly: already masked, or where-bit, or a predicate; value untouched *)
 Theorem mask_exact_no_where p f cs :
-  dom_values p f = true ->
   zip_mask (impl_mcell p f) None cs = map (fun c => MC (raw c) (msk c || false || pred_hit p f (raw c))) cs.
-Proof.
-  intros H. rewrite zip_mask_none. apply map_ext. intros c. rewrite mcell_dom_correct by auto. reflexivity.
-Qed.
+Proof. rewrite zip_mask_none. apply map_ext. intros c. rewrite mcell_correct. reflexivity. Qed.
 
 Theorem mask_exact_where p f bs cs :
-  dom_values p f = true -> length bs = length cs ->
+  length bs = length cs ->
   zip_mask (impl_mcell p f) (Some bs) cs
   = map (fun bc => MC (raw (snd bc)) (msk (snd bc) || fst bc || pred_hit p f (raw (snd bc)))) (combine bs cs).
 Proof.
-  intros H L. rewrite zip_mask_some by auto. apply map_ext. intros [b c]. simpl.
-  rewrite mcell_dom_correct by auto. reflexivity.
+  intros L. rewrite zip_mask_some by auto. apply map_ext. intros [b c]. simpl.
+  rewrite mcell_correct. reflexivity.
 Qed.
-
-Lemma Forall2_weaken {A B} (P Q : A -> B -> Prop) l l' :
-  (forall a b, P a b -> Q a b) -> Forall2 P l l' -> Forall2 Q l l'.
-Proof. intros H F. induction F; constructor; auto. Qed.
 
 Lemma zip_mask_rel g (R : mcell -> mcell -> Prop) bits cs :
   (forall wb c, R c (g wb c)) -> Forall2 R cs (zip_mask g bits cs).
@@ -140,42 +110,42 @@ Proof. intros H. revert bits; induction cs as [|c cs IH]; intros bits; simpl; co
 
 (* an unmasked output cell shows exactly the input value, and was unmasked and hit by no predicate *)
 Theorem mask_keeps_unmasked p f bits cs :
-  dom_values p f = true ->
   Forall2 (fun c c' => forall x, visible c' = Some x ->
               visible c = Some x /\ pred_hit p f (raw c) = false)
           cs (zip_mask (impl_mcell p f) bits cs).
 Proof.
-  intros H. apply zip_mask_rel. intros wb c x. rewrite mcell_dom_correct by auto.
+  apply zip_mask_rel. intros wb c x. rewrite mcell_correct.
   unfold spec_mcell, visible. simpl.
   destruct (msk c); simpl; try discriminate.
   destruct wb; simpl; try discriminate.
   destruct (pred_hit p f (raw c)); simpl; try discriminate. intros E; split; auto.
 Qed.
 
-Lemma mask_var_same coords wc w p v :
-  dims_is_list w = false -> int_values_var coords wc p v = false ->
-  mask_var impl_mcell impl_applies coords wc w p v = mask_var spec_mcell spec_applies coords wc w p v.
+(* masks only grow *)
+Theorem mask_monotone p f bits cs :
+  Forall2 (fun c c' => msk c = true -> msk c' = true) cs (zip_mask (impl_mcell p f) bits cs).
 Proof.
-  intros H I. unfold mask_var, int_values_var in *.
-  destruct (existsb _ coords && negb wc); auto. simpl in I. apply negb_false_iff in I.
+  apply zip_mask_rel. intros wb c H. rewrite mcell_correct. unfold spec_mcell. simpl. rewrite H. reflexivity.
+Qed.
+
+Lemma mask_var_same coords wc w p v :
+  mask_var impl_mcell coords wc w p v = mask_var spec_mcell coords wc w p v.
+Proof.
+  unfold mask_var.
+  destruct (existsb _ coords && negb wc); auto.
   assert (Z : forall bits, zip_mask (impl_mcell p (mfloat v)) bits (mcells v)
                            = zip_mask (spec_mcell p (mfloat v)) bits (mcells v)).
-  { intros. apply zip_mask_ext. intros. apply mcell_dom_correct; auto. }
-  destruct w as [[s b [[ds [|]]|]]|]; simpl in *; try discriminate; rewrite ?Z; auto.
+  { intros. apply zip_mask_ext. intros. apply mcell_correct. }
+  destruct w as [wa|]; rewrite ?Z; auto.
 Qed.
 
-Theorem mask_correct coords wc w p vs :
-  dims_is_list w = false -> existsb (int_values_var coords wc p) vs = false ->
-  impl_mask coords wc w p vs = spec_mask coords wc w p vs.
+(* FULL: mask() as a whole equals the specification *)
+Theorem mask_correct coords wc w p vs : impl_mask coords wc w p vs = spec_mask coords wc w p vs.
 Proof.
-  intros H I. unfold impl_mask, spec_mask, mask_file.
-  replace (map (mask_var impl_mcell impl_applies coords wc w p) vs)
-     with (map (mask_var spec_mcell spec_applies coords wc w p) vs); auto.
-  apply map_ext_in. intros v Hv. symmetry. apply mask_var_same; auto.
-  destruct (int_values_var coords wc p v) eqn:E; auto.
-  assert (existsb (int_values_var coords wc p) vs = true) by (apply existsb_exists; eauto). congruence.
+  unfold impl_mask, spec_mask, mask_file.
+  rewrite (map_ext _ _ (mask_var_same coords wc w p)). reflexivity.
 Qed.
 
-Theorem mask_skips_coords cellf applies coords w p v :
-  existsb (Nat.eqb (mname v)) coords = true -> mask_var cellf applies coords false w p v = Some (mcells v).
+Theorem mask_skips_coords cellf coords w p v :
+  existsb (Nat.eqb (mname v)) coords = true -> mask_var cellf coords false w p v = Some (mcells v).
 Proof. intros H. unfold mask_var. rewrite H. reflexivity. Qed.
